@@ -18,7 +18,8 @@ CONSTANTS
   MaxOps,     \* number of calls (AddEntry/DeleteEntry/Flush/AddNI) per behaviour
   WithFlush,  \* BOOLEAN
   BadKinds,   \* kinds for which a malformed ADD is part of the alphabet
-  EmitOn      \* TRUE: print each complete input sequence as JSON
+  EmitOn,     \* TRUE: print each complete input sequence as JSON
+  Bias        \* TRUE: prefer operations that have an effect (used when emitting walks)
 
 \* named constant values (a .cfg file cannot contain tuples)
 L_1      == {<<"1">>}
@@ -49,6 +50,13 @@ Ops(id) ==
   \cup {[Base(id, DefaultNI, "ADD", kd, "1") EXCEPT !.bad = "malformed"] : kd \in BadKinds}
   \cup {[Base(id, DefaultNI, "DELETE", kd, "1") EXCEPT !.bad = "malformed"] : kd \in BadKinds}
 
+\* an operation that has an effect in the current state; every fourth call is unconstrained
+Interesting(op) ==
+  \/ nid % 4 = 3
+  \/ /\ ~Unroutable(op)
+     /\ IF op.typ = "DELETE" THEN HasE(rib, op.ni, Tab(op), Key(op))
+        ELSE Outcome(op) \in {"installed", "held"}
+
 MCInit ==
   /\ \E f \in FwdModes : Init(InitNIs, f)
   /\ nid = 0
@@ -59,6 +67,7 @@ Step(rec) == nid' = nid + 1 /\ hist' = Append(hist, rec)
 MCNext ==
   \/ /\ nid < MaxOps
      /\ \E op \in Ops(nid + 1) :
+          /\ (~Bias \/ Interesting(op))
           /\ \/ CallBegin(op)
              \/ Delete(op)
              \/ (op.bad = "" /\ CallErr(op))
@@ -66,7 +75,7 @@ MCNext ==
   \/ /\ \E e \in UNION Range(call.stack) : Try(e)
      /\ UNCHANGED <<nid, hist>>
   \/ CallEnd /\ UNCHANGED <<nid, hist>>
-  \/ /\ WithFlush /\ nid < MaxOps
+  \/ /\ WithFlush /\ nid < MaxOps /\ (~Bias \/ nid % 3 = 2)
      /\ \E S \in (SUBSET nis) \ {{}} : Flush(S) /\ Step([a |-> "flush", nis |-> S])
   \/ /\ nid < MaxOps
      /\ \E n \in LateNIs : AddNI(n) /\ Step([a |-> "addni", ni |-> n])
